@@ -3,11 +3,11 @@ C10 — DHCPv4 never leases one address to two clients; lease table survives res
 
 Property theorems only (helper lemmas live in AGH/Lemmas/DHCP*.lean).  The
 model (`AGH/Model/DHCP.lean`) transcribes `internal/dhcpd/v4_unix.go` after the
-repairs F5–F7 and F16/F17; `Reachable O c s` are the states it reaches from the
+repairs F5–F7, F16/F17 and a691f53 (R5); `Reachable O c s` are the states it reaches from the
 empty table by ANY history of DISCOVER / REQUEST (selecting, init-reboot, renew)
-/ DECLINE / RELEASE / static add, update, remove / sleep / restart whose
-hardware addresses are 6 bytes long, for ANY hostname oracle `O` and ANY
-configuration `c`.
+/ DECLINE / RELEASE / static add, update, remove / sleep / restart from ANY
+hardware addresses (6, 8 and 20 bytes mixed; others are dropped as the code
+drops them), for ANY hostname oracle `O` and ANY configuration `c`.
 
 Two clauses of the property are violated by the code (and by the model), both
 in hostname handling — R3 (`commitLease` falls back to the generated hostname
@@ -31,11 +31,11 @@ theorem C10_inv_init (c : Conf) : Inv c State.init := Inv_init c
 /-- Every operation keeps the invariant (addresses and MACs unique, dynamic
 leases inside the pool, bitset / address index / hostname index in step with
 the table, file well-formed). -/
-theorem C10_inv_step (O : Oracle) (c : Conf) (s : State) (op : Op) (h : Inv c s) (hw : op.wf) :
-    Inv c (step O c s op).1 := Inv_step h hw
+theorem C10_inv_step (O : Oracle) (c : Conf) (s : State) (op : Op) (h : Inv c s) :
+    Inv c (step O c s op).1 := Inv_step h
 
-theorem C10_inv_reachable (O : Oracle) (c : Conf) (ops : List Op) (hw : ∀ op ∈ ops, op.wf) :
-    Inv c (run O c State.init ops) := run_inv ops _ (Inv_init c) hw
+theorem C10_inv_reachable (O : Oracle) (c : Conf) (ops : List Op) :
+    Inv c (run O c State.init ops) := run_inv ops _ (Inv_init c)
 
 /-! ### what the property says, in Prop form -/
 
@@ -66,45 +66,45 @@ theorem C10_dynamic_in_pool_not_reserved {O : Oracle} {c : Conf} {s : State} (hc
   rw [this, hd] at hrs; cases hrs
 
 /-- The address of a positive reply is recorded in the table for the client it was sent to. -/
-theorem C10_reply_recorded {O : Oracle} {c : Conf} {s : State} (hr : Reachable O c s) {op : Op} (hw : op.wf)
+theorem C10_reply_recorded {O : Oracle} {c : Conf} {s : State} (hr : Reachable O c s) {op : Op}
     {m : Bytes} (hm : op.mac? = some m) (hrc : (step O c s op).2.rc = 1) (hyi : (step O c s op).2.yi ≠ 0) :
     ∃ l ∈ (step O c s op).1.leases, l.mac = m ∧ l.ip = (step O c s op).2.yi :=
-  step_recorded hr.inv hw hm hrc hyi
+  step_recorded hr.inv hm hrc hyi
 
 /-- A client with a reservation is only ever given that address (OFFER, ACK of
 any REQUEST flavour, DECLINE replacement). -/
 theorem C10_reserved_client_gets_reservation {O : Oracle} {c : Conf} {s : State} (hr : Reachable O c s)
-    {op : Op} (hw : op.wf) {m : Bytes} (hm : op.mac? = some m)
+    {op : Op} {m : Bytes} (hm : op.mac? = some m)
     (hrc : (step O c s op).2.rc = 1) (hyi : (step O c s op).2.yi ≠ 0)
     {r : Lease} (hrl : r ∈ (step O c s op).1.leases) (_hrs : r.static = true) (hrm : r.mac = m) :
     (step O c s op).2.yi = r.ip := by
-  obtain ⟨l, hl, h1, h2⟩ := step_recorded hr.inv hw hm hrc hyi
-  have : r = l := nodup_map_inj (Inv_step (O := O) hr.inv hw).macNodup hrl hl (by rw [hrm, h1])
+  obtain ⟨l, hl, h1, h2⟩ := step_recorded hr.inv hm hrc hyi
+  have : r = l := nodup_map_inj (Inv_step (O := O) (op := op) hr.inv).macNodup hrl hl (by rw [hrm, h1])
   rw [this, h2]
 
 /-- A DISCOVER from a new client is answered with an OFFER of a pool address
 whenever some pool address is neither leased (held by an unexpired lease) nor
 reserved — also when every address carries a lease and only expired ones are left. -/
 theorem C10_offer_liveness {O : Oracle} {c : Conf} {s : State} (hr : Reachable O c s)
-    {mac : Bytes} (hlen : mac.length = 6) (hnew : ∀ l ∈ s.leases, l.mac ≠ mac)
+    {mac : Bytes} (hv : validMAC mac = true) (hnew : ∀ l ∈ s.leases, l.mac ≠ mac)
     (hfree : ∃ a, c.start ≤ a ∧ a ≤ c.stop ∧ ∀ l ∈ s.leases, l.ip = a → l.static = false ∧ l.exp < s.now) :
     (step O c s (.discover mac)).2.rc = 1 ∧ (step O c s (.discover mac)).2.typ = 2 ∧
     c.start ≤ (step O c s (.discover mac)).2.yi ∧ (step O c s (.discover mac)).2.yi ≤ c.stop := by
   have h0 : Inv c { s with stale := [] } := Inv_congr hr.inv rfl rfl rfl rfl rfl rfl
   have hstep : (step O c s (.discover mac)).2 = (handleDiscover c mac { s with stale := [] }).2 := by
     unfold step
-    simp only [validMAC_of_len hlen, Bool.not_true, Bool.false_eq_true, if_false]
+    simp only [hv, Bool.not_true, Bool.false_eq_true, if_false]
   rw [hstep]
-  exact handleDiscover_offer h0 hlen hnew hfree
+  exact handleDiscover_offer h0 hnew hfree
 
 /-- No DHCP message and no lapse of time adds, removes, moves, renames or
 re-assigns a reservation: the static leases of the table are literally the same
 list before and after (so a reserved client keeps its address whatever other
 clients send, also when the pool is exhausted and expired leases are recycled). -/
 theorem C10_reservations_unchanged_by_dhcp {O : Oracle} {c : Conf} {s : State} (hr : Reachable O c s)
-    {op : Op} (hw : op.wf) (hd : op.isDHCP = true) :
+    {op : Op} (hd : op.isDHCP = true) :
     (step O c s op).1.leases.filter (·.static) = s.leases.filter (·.static) :=
-  step_statics hr.inv hw hd
+  step_statics hr.inv hd
 
 /-- The bitset of leased offsets is exactly the set of pool addresses in the table. -/
 theorem C10_bitset_agrees {O : Oracle} {c : Conf} {s : State} (hr : Reachable O c s) (o : Nat) :
@@ -134,18 +134,18 @@ theorem C10_disk_mirror_step {O : Oracle} {c : Conf} {s : State} (hr : Reachable
     (hne : op ≠ .restart) (hm : Mirror s) : Mirror (step O c s op).1 := Mirror_step hr.inv hm hne
 
 /-- Along every history without a restart the file lists exactly the leases in memory. -/
-theorem C10_disk_mirror (O : Oracle) (c : Conf) (ops : List Op) (hw : ∀ op ∈ ops, op.wf)
+theorem C10_disk_mirror (O : Oracle) (c : Conf) (ops : List Op)
     (hnr : ∀ op ∈ ops, op ≠ .restart) : Mirror (run O c State.init ops) := by
-  suffices H : ∀ (ops : List Op) (s : State), Inv c s → Mirror s → (∀ op ∈ ops, op.wf) →
-      (∀ op ∈ ops, op ≠ .restart) → Mirror (run O c s ops) from H ops _ (Inv_init c) Mirror_init hw hnr
+  suffices H : ∀ (ops : List Op) (s : State), Inv c s → Mirror s →
+      (∀ op ∈ ops, op ≠ .restart) → Mirror (run O c s ops) from H ops _ (Inv_init c) Mirror_init hnr
   intro ops
   induction ops with
-  | nil => intro s _ hm _ _; exact hm
+  | nil => intro s _ hm _; exact hm
   | cons op rest ih =>
-    intro s hi hm hw hnr
+    intro s hi hm hnr
     unfold run
-    exact ih _ (Inv_step hi (hw op List.mem_cons_self)) (Mirror_step hi hm (hnr op List.mem_cons_self))
-      (fun o ho => hw o (List.mem_cons_of_mem _ ho)) (fun o ho => hnr o (List.mem_cons_of_mem _ ho))
+    exact ih _ (Inv_step hi) (Mirror_step hi hm (hnr op List.mem_cons_self))
+      (fun o ho => hnr o (List.mem_cons_of_mem _ ho))
 
 /-- What is on disk is a permutation of what is in memory: each lease once. -/
 theorem C10_disk_lists_each_lease_once {s : State} (hm : Mirror s) {d : List DLease} (hd : s.disk = some d) :
@@ -165,13 +165,13 @@ hostname index is sound.  What is left of `specOK` are the two clauses the code
 violates (hostname index complete — R3; restart reproduces table and answers —
 R4), see below. -/
 theorem C10_model_meets_spec {O : Oracle} {c : Conf} {s : State} (hc : ConfOK c) (hr : Reachable O c s)
-    {op : Op} (hw : op.wf) :
+    {op : Op} :
     specCore c (obsOf c s) op (step O c s op).2 (obsOf c (step O c s op).1) = true ∧
     reservationsKept (obsOf c s) op (obsOf c (step O c s op).1) = true ∧
     (op ≠ .restart → (diskMirror (obsOf c s) && !diskMirror (obsOf c (step O c s op).1)) = false) ∧
     hostIndexSound (obsOf c (step O c s op).1) = true :=
-  ⟨specCore_step hc hr.inv hw, obs_reservationsKept hr.inv hw, fun hne => obs_disk_step hr.inv hne,
-    obs_hostIndexSound (Inv_step hr.inv hw)⟩
+  ⟨specCore_step hc hr.inv, obs_reservationsKept hr.inv, fun hne => obs_disk_step hr.inv hne,
+    obs_hostIndexSound (Inv_step hr.inv)⟩
 
 /-! ### R3 — the generated hostname is not checked for uniqueness (unrepaired)
 
@@ -182,7 +182,7 @@ Full statement (false): `∀ reachable s, ∀ l ∈ s.leases, l.host ≠ [] → 
 requests it without a hostname: two leases carry the same name, the index entry
 of the reservation now points to the client, and the monitor names the cause. -/
 theorem C10_counterexample_generated_hostname_not_unique :
-    ConfOK c0 ∧ (∀ op ∈ opsR3, op.wf) ∧
+    ConfOK c0 ∧
     (run O0 c0 State.init opsR3).leases.map (fun l => (l.ip, l.static, l.host)) =
       [(20, true, name10), (10, false, name10)] ∧
     (run O0 c0 State.init opsR3).hosts name10 = some 1 ∧
@@ -190,7 +190,7 @@ theorem C10_counterexample_generated_hostname_not_unique :
     specWhy c0 (obsOf c0 (run O0 c0 State.init (opsR3.take 2))) (.request mB 2 true 10 0 [])
       (step O0 c0 (run O0 c0 State.init (opsR3.take 2)) (.request mB 2 true 10 0 [])).2
       (obsOf c0 (run O0 c0 State.init opsR3)) = some "generated-hostname-not-unique@request" := by
-  refine ⟨c0_ok, by decide, by decide, by decide, by decide, by decide⟩
+  refine ⟨c0_ok, by decide, by decide, by decide, by decide⟩
 
 /-- What does hold: the hostname index stays complete over every step that is
 not an instance of R3 (`R3at`: a REQUEST commits a still unnamed lease, the
@@ -198,13 +198,13 @@ wanted name is taken, and the generated name it falls back to is indexed for
 another lease) — DISCOVER, the other REQUESTs, DECLINE, RELEASE, the static-lease
 API and restart included. -/
 theorem C10_host_index_complete_step_partial {O : Oracle} {c : Conf} {s : State} (hr : Reachable O c s)
-    (hcpl : HostComplete s) {op : Op} (hw : op.wf) (hno : ¬ R3at O c s op) :
-    HostComplete (step O c s op).1 := (Inv2_step ⟨hr.inv, hcpl⟩ hw hno).2
+    (hcpl : HostComplete s) {op : Op} (hno : ¬ R3at O c s op) :
+    HostComplete (step O c s op).1 := (Inv2_step ⟨hr.inv, hcpl⟩ hno).2
 
 /-- Along every history without an instance of R3, every named lease is what its name resolves to. -/
-theorem C10_host_index_complete_partial (O : Oracle) (c : Conf) (ops : List Op) (hw : ∀ op ∈ ops, op.wf)
+theorem C10_host_index_complete_partial (O : Oracle) (c : Conf) (ops : List Op)
     (hno : NoR3 O c State.init ops) : HostComplete (run O c State.init ops) :=
-  (run_inv2 ops _ ⟨Inv_init c, by intro l hl; cases hl⟩ hw hno).2
+  (run_inv2 ops _ ⟨Inv_init c, by intro l hl; cases hl⟩ hno).2
 
 /-- … and the next restart loses one of the two leases although the file listed both. -/
 theorem C10_counterexample_restart_drops_duplicate_hostname :
@@ -221,14 +221,14 @@ permutation of `s.leases.map Lease.view`, with the same `HostByIP` / `IPByHost` 
 /-- One DISCOVER, then a restart: the file mirrors the table, yet the reloaded
 lease has a hostname it did not have, and `IPByHost` answers a name it did not know. -/
 theorem C10_counterexample_restart_names_unnamed_lease :
-    ConfOK c0 ∧ (∀ op ∈ opsR4, op.wf) ∧ Mirror (run O0 c0 State.init opsR4) ∧
+    ConfOK c0 ∧ Mirror (run O0 c0 State.init opsR4) ∧
     (run O0 c0 State.init opsR4).leases.map (·.host) = [[]] ∧
     (restart O0 c0 (run O0 c0 State.init opsR4)).leases.map (·.host) = [name10] ∧
     (obsOf c0 (run O0 c0 State.init opsR4)).ipByHost name10 = none ∧
     (obsOf c0 (restart O0 c0 (run O0 c0 State.init opsR4))).ipByHost name10 = some 10 ∧
     specWhy c0 (obsOf c0 (run O0 c0 State.init opsR4)) .restart (Reply.api "ok")
       (obsOf c0 (restart O0 c0 (run O0 c0 State.init opsR4))) = some "restart-names-unnamed-lease" := by
-  refine ⟨c0_ok, by decide, .inl (by decide), by decide, by decide, by decide, by decide, by decide⟩
+  refine ⟨c0_ok, .inl (by decide), by decide, by decide, by decide, by decide, by decide⟩
 
 /-- If the generated name is taken, the restart drops a lease — here the reservation. -/
 theorem C10_counterexample_restart_drops_lease_generated_name_taken :
@@ -253,37 +253,25 @@ theorem C10_restart_restores_table_partial {O : Oracle} {c : Conf} {s : State} (
   have h := restart_restores hr.inv hm hsub hnamed huniq
   exact ⟨h, h ▸ sortByHost_perm _⟩
 
-/-! ### why the theorems assume hardware addresses of one length
-
-`reserveLease` recycles an expired lease with `copy(lease.HWAddr, mac)`.  With
-6- and 8-byte addresses in one network this writes a hybrid address: the code
-(and the model, which transcribes `copy`) then violates "a client holds at most
-one lease" and "what a client is told is in the table".  `Op.wf` excludes it. -/
-
-/-- Without `Op.wf`: the 6-byte client is offered 0.0.0.10, but the recycled
-lease is now recorded under the 8-byte address of ANOTHER client, which thus
-holds two leases, and no lease is recorded for the client that got the offer. -/
-theorem C10_counterexample_mixed_length_hardware_addresses :
-    ConfOK c0 ∧
-    (step O0 c0 (run O0 c0 State.init (opsMixed.take 3)) (.discover mB)).2 = { rc := 1, typ := 2, yi := 10, err := "ok" } ∧
-    (run O0 c0 State.init opsMixed).leases.map (fun l => (l.ip, l.mac)) =
-      [(10, [2, 0, 0, 0, 0, 2, 7, 7]), (11, [2, 0, 0, 0, 0, 2, 7, 7]), (12, [2, 0, 0, 0, 0, 3, 7, 7])] ∧
-    ¬ ((run O0 c0 State.init opsMixed).leases.map (·.mac)).Nodup ∧
-    specWhy c0 (obsOf c0 (run O0 c0 State.init (opsMixed.take 3))) (.discover mB)
-      (step O0 c0 (run O0 c0 State.init (opsMixed.take 3)) (.discover mB)).2
-      (obsOf c0 (run O0 c0 State.init opsMixed)) = some "offer-recorded-under-hybrid-hardware-address" := by
-  refine ⟨c0_ok, by decide, by decide, by decide, by decide⟩
-
 /-! ### non-vacuity -/
 
-/-- `ConfOK` and `Op.wf` are satisfiable; a reachable table with a reservation,
+/-- `ConfOK` is satisfiable; a reachable table with a reservation,
 two acknowledged clients and an outstanding offer. -/
-example : ConfOK c0 ∧ (∀ op ∈ opsOK, op.wf) ∧
+example : ConfOK c0 ∧
     (run O0 c0 State.init opsOK).leases.map (fun l => (l.ip, l.static, l.exp)) =
       [(20, true, 0), (10, false, 1060), (11, false, 1060), (12, false, 0)] :=
-  ⟨c0_ok, by decide, by decide⟩
+  ⟨c0_ok, by decide⟩
 
-example : Reachable O0 c0 (run O0 c0 State.init opsOK) := ⟨opsOK, by decide, rfl⟩
+example : Reachable O0 c0 (run O0 c0 State.init opsOK) := ⟨opsOK, rfl⟩
+
+/-- Mixed address lengths (the history of R5, repaired by a691f53): the 6-byte
+client that recycles the expired lease of an 8-byte client is recorded under
+its own address, and all hardware addresses of the table stay distinct. -/
+example :
+    (step O0 c0 (run O0 c0 State.init (opsMixed.take 3)) (.discover mB)).2 = { rc := 1, typ := 2, yi := 10, err := "ok" } ∧
+    (run O0 c0 State.init opsMixed).leases.map (fun l => (l.ip, l.mac)) =
+      [(10, mB), (11, [2, 0, 0, 0, 0, 2, 7, 7]), (12, [2, 0, 0, 0, 0, 3, 7, 7])] := by
+  refine ⟨by decide, by decide⟩
 
 /-- The hypotheses of `C10_offer_liveness` hold in a state where every pool
 address carries a lease and only expiry frees one (and the offer recycles it). -/
